@@ -886,7 +886,23 @@ steps:
 			if writerBlocked {
 				w = 300 * time.Millisecond
 			}
-			if !s.peek(w, isS("send", st.S)) && !writerBlocked {
+			// the worker either enters Send or - when SyncChain has returned meanwhile (the two run
+			// concurrently) - drops the beacon at the callback's context check
+			got := false
+			for dl := time.Now().Add(w); time.Now().Before(dl); {
+				if s.peek(20*time.Millisecond, isS("send", st.S)) {
+					got = true
+					break
+				}
+				if stm != nil && (stm.ended.Load() || stm.ctx.Err() != nil) {
+					if s.peek(20*time.Millisecond, isS("send", st.S)) {
+						got = true
+					}
+					break
+				}
+			}
+			if !got && !writerBlocked && !(stm != nil && (stm.ended.Load() || stm.ctx.Err() != nil)) {
+				vsvImpatient()
 				s.diverge(i, st, "send")
 				break steps
 			}
@@ -1129,6 +1145,9 @@ func TestVerifServe(t *testing.T) {
 	backends := []string{"bolt"}
 	if !quick {
 		backends = []string{"bolt", "boltu", "mem"}
+	}
+	if b := os.Getenv("VERIF_VSV_BACKENDS"); b != "" {
+		backends = strings.Split(b, ",")
 	}
 	for _, be := range backends {
 		if strings.Contains(sel, "scanstall") {
